@@ -11,6 +11,7 @@ import (
 	"net"
 	"os"
 	"path/filepath"
+	"sync"
 	"sync/atomic"
 	"time"
 
@@ -204,7 +205,67 @@ type c35Step struct {
 	} `json:"files"`
 }
 
-func notifyMode(scn, out string) {
+// concurrentHistories runs seeded histories of 2-3 simultaneous NotifyTRC calls (each with its own
+// scripted remote) against one database and records what every call returned and the final store.
+func concurrentHistories(ctx context.Context, w *vt.Writer, u *universe, n int) {
+	rng := vt.Rand(35)
+	kinds := []string{"fetcherr", "badsig", "wrongpred", "wrongserial", "stale", "otherbase", "otherisd"}
+	const maxSerial = 5
+	for h := 0; h < n; h++ {
+		init := 1 + rng.Intn(2)
+		ncalls := 2 + rng.Intn(2)
+		sq := newTrustDB()
+		for k := 1; k <= init; k++ {
+			if _, err := sq.InsertTRC(ctx, u.trc("a", k)); err != nil {
+				vt.Fatal("initial insert: %v", err)
+			}
+		}
+		type call struct {
+			serial  int
+			outc    []string
+			f       *scriptFetcher
+			errnil  int
+			fetched []int
+		}
+		calls := make([]*call, ncalls)
+		for i := range calls {
+			c := &call{serial: init + 1 + rng.Intn(maxSerial-init), outc: make([]string, maxSerial)}
+			variant := []string{"ok", "okb"}[rng.Intn(2)]
+			for k := range c.outc {
+				c.outc[k] = variant
+			}
+			if rng.Intn(3) == 0 {
+				c.outc[init+rng.Intn(maxSerial-init)] = kinds[rng.Intn(len(kinds))]
+			}
+			c.f = &scriptFetcher{u: u, outc: c.outc}
+			calls[i] = c
+		}
+		var wg sync.WaitGroup
+		start := make(chan struct{})
+		for _, c := range calls {
+			wg.Add(1)
+			go func(c *call) {
+				defer wg.Done()
+				prov := trust.FetchingProvider{DB: sq, Recurser: trust.LocalOnlyRecurser{}, Fetcher: c.f, Router: fixedRouter{}}
+				<-start
+				err := prov.NotifyTRC(ctx, cppki.TRCID{ISD: 1, Base: 1, Serial: scrypto.Version(c.serial)})
+				c.errnil = b2i(err == nil)
+			}(c)
+		}
+		close(start)
+		wg.Wait()
+		own, foreign, latest := stored(ctx, u, sq, maxSerial)
+		cs := []vt.M{}
+		for _, c := range calls {
+			cs = append(cs, vt.M{"serial": c.serial, "outc": c.outc, "errnil": c.errnil, "fetched": vt.Ints(c.f.asked)})
+		}
+		w.Emit(vt.M{"ev": "reset", "init": init, "maxserial": maxSerial, "id": -1 - h})
+		w.Emit(vt.M{"ev": "concurrent", "calls": cs, "stored": own, "foreign": foreign, "latest": latest})
+		sq.Close()
+	}
+}
+
+func notifyMode(scn, out string, nconc int) {
 	w := vt.NewWriter(out)
 	ctx := context.Background()
 	clk := pki.NewClock(24 * time.Hour)
@@ -284,6 +345,7 @@ func notifyMode(scn, out string) {
 		}
 		sq.Close()
 	})
+	concurrentHistories(ctx, w, u, nconc)
 	w.Close()
-	fmt.Printf("histories=%d events=%d\n", nh, w.N)
+	fmt.Printf("histories=%d concurrent=%d events=%d\n", nh, nconc, w.N)
 }
